@@ -251,3 +251,19 @@ def run(repo, rep, tier):  # noqa: F811 -- round-7 remedies / borrowings
 _ADD_R7S = ' Borrowed: R05.17 (the None guard / omit_none of a TypeVar field follows the substituted type).'
 EXPLANATION += _ADD_R7S
 LEVEL_TEXT += _ADD_R7S
+
+
+_run_before_r7rt = run
+
+
+def run(repo, rep, tier):  # noqa: F811 -- round 7: get_real_type leaves the trusted base
+    _run_before_r7rt(repo, rep, tier)
+    if getattr(rep, "borrowed", False):
+        return
+    from ..core import typepreds as _tprt
+    _tprt.real_type_cases(repo, rep, "R01.7")
+
+
+_ADD_R7RT = ' Borrowed: R01.7 (get_real_type substitutes the parameters of the defining class).'
+EXPLANATION += _ADD_R7RT
+LEVEL_TEXT += _ADD_R7RT
